@@ -16,6 +16,7 @@ def main():
     seed = int(os.environ.get("VERIF_SEED", "0") or 0)
     tier = a.tier if a.tier in ("quick", "thorough") else "quick"
     sys.path.insert(0, os.path.dirname(os.path.dirname(os.path.abspath(__file__))))
+    logging.disable(logging.WARNING)  # atomica's logger output carries no semantics for the checks
     mod = importlib.import_module("checks.%s" % a.prop)
     from vsym import report
 
